@@ -202,6 +202,14 @@ func (r *Run) Set(key string, v any) {
 	r.Cov[key] = v
 }
 
+// Append appends v to the list stored under key.
+func (r *Run) Append(key string, v any) {
+	r.mu.Lock()
+	defer r.mu.Unlock()
+	cur, _ := r.Cov[key].([]any)
+	r.Cov[key] = append(cur, v)
+}
+
 func (r *Run) Get(key string) int {
 	r.mu.Lock()
 	defer r.mu.Unlock()
